@@ -1,12 +1,13 @@
 (* Run.v — top-level dispatch: TL (TN machine :: args).
-   Machines: 1 CMS mem, 3 Bloom mem, 5 HLL mem. *)
+   Machines: 1 CMS mem, 3 Bloom mem, 5 HLL mem, 7 Cuckoo mem. *)
 From GX.Model Require Import Base.
-From GX.Runner Require Import RunCMS RunBloom RunHLL.
+From GX.Runner Require Import RunCMS RunBloom RunHLL RunCuckoo.
 
 Definition run_case (c : tok) : tok :=
   match tok_L c with
   | TN 1 :: args => run_cms_case args
   | TN 3 :: args => run_bloom_case args
   | TN 5 :: args => run_hll_case args
+  | TN 7 :: args => run_cuckoo_case args
   | _ => T_INVALID
   end.
